@@ -1,3 +1,4 @@
+import AwsVerif.Model.Scanf
 /-!
 Model of `source/host_utils.c` : `aws_host_utils_is_ipv6` (hand-written character logic), over the
 checked memory of DESIGN.md 4.3.
@@ -15,9 +16,9 @@ that could run out: a run either returns a verdict or faults.
   second call: `substr.ptr += substr.len + 1`; if that is beyond `host.ptr + host.len` there is no further
                split, otherwise `substr.len = host.len - offset` and `memchr` again.
 
-Not modelled here (no model, decided by sanitizer-monitored execution only): `aws_host_utils_is_ipv4`
-(`sscanf("%03hu.%03hu.%03hu.%03hu%1s")` on a 16-byte zero-initialised copy) — its only access to the input
-is `memcpy(copy, host.ptr, host.len)` guarded by `host.len <= 15`.
+`aws_host_utils_is_ipv4` (end of this file): its only access to the input is `memcpy(copy, host.ptr, host.len)` behind
+the guard `host.len <= 15`; the 16-byte zero-initialised local copy is then scanned by
+`sscanf(copy, "%03hu.%03hu.%03hu.%03hu%1s", …)` (AwsVerif.Scanf, glibc semantics).
 
 `uint8_t group_count / digit_count` cannot wrap: the loop leaves as soon as one exceeds 8 / 4.
 -/
@@ -189,5 +190,48 @@ def zoneOk (enc : Bool) (z : List UInt8) : Bool :=
 def spec (inp : List UInt8) (enc : Bool) : Bool :=
   !inp.isEmpty && addrOk (addrPart inp) &&
   (match zonePart inp with | none => true | some z => zoneOk enc z)
+
+/-! ### aws_host_utils_is_ipv4 -/
+
+/-- AWS_IPV4_STR_LEN -/
+def IPV4_STR_LEN : Nat := 16
+
+/-- `memcpy(copy, host.ptr + off, n)` on the source side: reads offsets `off … off+n-1` in order -/
+def rdN (inp : List UInt8) : (off n : Nat) → M (List UInt8)
+  | _, 0 => .ok []
+  | off, n + 1 => rd inp off >>= fun b => rdN inp (off + 1) n >>= fun t => .ok (b :: t)
+
+def dot : UInt8 := 46
+
+/-- `%03hu` followed by `n` times `.%03hu` -/
+def scanDotted : Nat → List UInt8 → Option (List Nat × List UInt8)
+  | n, s =>
+    match AwsVerif.Scanf.scanDec3 s with
+    | none => none
+    | some (v, r) =>
+      match n with
+      | 0 => some ([v], r)
+      | n' + 1 =>
+        match r with
+        | c :: r' => if c = dot then (scanDotted n' r').map (fun p => (v :: p.1, p.2)) else none
+        | [] => none
+
+/-- `4 == sscanf(copy, "%03hu.%03hu.%03hu.%03hu%1s", …)` and every octet `<= 255`: four numbers, and nothing but white
+space behind them (otherwise `%1s` is a fifth conversion) -/
+def ipv4Text (s : List UInt8) : Bool :=
+  match scanDotted 3 s with
+  | none => false
+  | some (octets, rest) => (AwsVerif.Scanf.skipWs rest).isEmpty && octets.all (· ≤ 255)
+
+structure V4Res where
+  verdict : Bool
+  reads : List Nat        -- ghost: offsets of the input read
+deriving Repr, DecidableEq
+
+/-- `aws_host_utils_is_ipv4(host)` with `host = (inp, inp.length)` -/
+def isIpv4 (inp : List UInt8) : M V4Res :=
+  if IPV4_STR_LEN - 1 < inp.length then .ok ⟨false, []⟩ else
+  rdN inp 0 inp.length >>= fun copy =>                       -- copy[len..15] stay 0
+  .ok ⟨ipv4Text (AwsVerif.Scanf.cstr copy), List.range' 0 inp.length⟩
 
 end AwsVerif.HostUtils
